@@ -18,6 +18,7 @@ package objectz
 
 import (
 	"github.com/openziti/storage/ast"
+	"reflect"
 	"time"
 )
 
@@ -85,7 +86,13 @@ func (self *ObjectCursor[T]) EvalDatetime(name string) *time.Time {
 }
 
 func (self *ObjectCursor[T]) IsNil(name string) bool {
-	return nil == self.eval(name)
+	result := self.eval(name)
+	if result == nil {
+		return true
+	}
+	// symbols return typed pointers, so a nil pointer wrapped in an interface is also nil
+	val := reflect.ValueOf(result)
+	return val.Kind() == reflect.Ptr && val.IsNil()
 }
 
 func (self *ObjectCursor[T]) OpenSetCursor(name string) ast.SetCursor {
